@@ -58,6 +58,11 @@ Inductive op :=
 | OModEnergyFixed (c : call) (amount : float)
 | OModSP (key source amount : Z).
 
+(* what the getters of attribute.go return for one id (see [snapshot]) *)
+Record snap := mkSnap {
+  g_hp : float; g_energy : float; g_maxEnergy : float; g_stance : float; g_maxStance : float;
+  g_state : lstate; g_last : Z; g_sp : Z }.
+
 Inductive ev :=
 | EHP (key target : Z) (oldR newR oldHP newHP : float) (dmg : bool)
 | ELimbo (target : Z)                       (* LimboWaitHeal reached its listeners *)
@@ -65,7 +70,14 @@ Inductive ev :=
 | EStance (key target source : Z) (oldS newS : float)
 | EBreak (key target source : Z)
 | EReset (key target : Z)
-| ESP (key source oldSP newSP : Z).
+| ESP (key source oldSP newSP : Z)
+(* not events of the service, but what the recording listener of the harness writes down:
+   [ESeen g] directly after every event = the getters of the event's unit (the source for an
+   SPChange) read when the listener is entered, i.e. BEFORE the listener's script runs;
+   [ERet err] = the error code a call issued from inside a listener returned.  The flat model
+   below ([step], [run]: listeners only record) produces neither. *)
+| ESeen (g : snap)
+| ERet (err : Z).
 
 (* error returned by the call: 0 = nil, 1 = unknown target, 2 = target already registered,
    3 = unknown ratio type *)
@@ -202,9 +214,6 @@ Definition step (s : state) (o : op) : state * list ev * Z :=
   end.
 
 (* ---- the getters of attribute.go for one id ---- *)
-Record snap := mkSnap {
-  g_hp : float; g_energy : float; g_maxEnergy : float; g_stance : float; g_maxStance : float;
-  g_state : lstate; g_last : Z; g_sp : Z }.
 
 Definition snapshot (s : state) (id : Z) : snap :=
   match find_unit id (units s) with
@@ -236,3 +245,242 @@ Fixpoint run (s : state) (ops : list op) : state * list res :=
 (* the ids dumped at the end of a case *)
 Definition dump_ids : list Z := [1; 2; 3; 4].
 Definition dump (s : state) : list snap := map (snapshot s) dump_ids.
+
+(* ==================================================================================== *)
+(* RE-ENTRANT LISTENERS.                                                                 *)
+(* Real content code reacts to the service's events from inside listeners: it calls the  *)
+(* service again while the outer call is still running.  Listener behaviour is DATA: for *)
+(* each of the seven events the service emits a slot holds a queue of scripts, a script  *)
+(* is a list of the service's own operations.  When the service emits an event the       *)
+(* (one) listener of that event records it, pops the slot's next script (an exhausted    *)
+(* queue behaves as the empty script) and runs it; the service then continues the outer  *)
+(* call with whatever the Go code continues with: a value it re-reads from the unit      *)
+(* table is read from the state the listeners left, a Go LOCAL computed before the       *)
+(* emission keeps its stale value.  Nesting is bounded by fuel: running a non-empty      *)
+(* script costs one unit, out of fuel is the distinct outcome [None] (the real listeners *)
+(* need no fuel: every script run consumes one entry of a finite queue).                 *)
+(* ==================================================================================== *)
+
+Definition script := list op.
+
+(* one queue of scripts per event of the service *)
+Record lsn := mkLs {
+  l_hp : list script;        (* event.HPChange *)
+  l_limbo : list script;     (* event.LimboWaitHeal (cancelable; the verdict is [c_limbo] of the emitting call) *)
+  l_stance : list script;    (* event.StanceChange *)
+  l_break : list script;     (* event.StanceBreak *)
+  l_reset : list script;     (* event.StanceReset *)
+  l_energy : list script;    (* event.EnergyChange *)
+  l_sp : list script }.      (* event.SPChange *)
+
+Definition no_lsn : lsn := mkLs [] [] [] [] [] [] [].
+
+Inductive slot := LHP | LLimbo | LStance | LBreak | LReset | LEnergy | LSP.
+
+Definition pop_q (q : list script) : script * list script :=
+  match q with [] => ([], []) | sc :: r => (sc, r) end.
+
+Definition pop_slot (L : lsn) (sl : slot) : script * lsn :=
+  match sl with
+  | LHP => let (sc, r) := pop_q (l_hp L) in
+           (sc, mkLs r (l_limbo L) (l_stance L) (l_break L) (l_reset L) (l_energy L) (l_sp L))
+  | LLimbo => let (sc, r) := pop_q (l_limbo L) in
+           (sc, mkLs (l_hp L) r (l_stance L) (l_break L) (l_reset L) (l_energy L) (l_sp L))
+  | LStance => let (sc, r) := pop_q (l_stance L) in
+           (sc, mkLs (l_hp L) (l_limbo L) r (l_break L) (l_reset L) (l_energy L) (l_sp L))
+  | LBreak => let (sc, r) := pop_q (l_break L) in
+           (sc, mkLs (l_hp L) (l_limbo L) (l_stance L) r (l_reset L) (l_energy L) (l_sp L))
+  | LReset => let (sc, r) := pop_q (l_reset L) in
+           (sc, mkLs (l_hp L) (l_limbo L) (l_stance L) (l_break L) r (l_energy L) (l_sp L))
+  | LEnergy => let (sc, r) := pop_q (l_energy L) in
+           (sc, mkLs (l_hp L) (l_limbo L) (l_stance L) (l_break L) (l_reset L) r (l_sp L))
+  | LSP => let (sc, r) := pop_q (l_sp L) in
+           (sc, mkLs (l_hp L) (l_limbo L) (l_stance L) (l_break L) (l_reset L) (l_energy L) r)
+  end.
+
+(* the outcome of a piece of execution: the state and listener queues it leaves and the events
+   recorded meanwhile, in the order the listeners were entered; [None] = out of fuel *)
+Definition outcome := option (state * lsn * list ev).
+
+(* runs a popped listener script one nesting level deeper *)
+Definition runner := state -> lsn -> script -> outcome.
+
+(* write through the pointer  s.targets[id]  (units are never removed) *)
+Definition upd_unit (s : state) (id : Z) (f : unit_ -> unit_) : state :=
+  match find_unit id (units s) with
+  | Some u => mkSt (set_unit id (f u) (units s)) (sp s)
+  | None => s
+  end.
+
+Definition cur_state (s : state) (id : Z) : lstate :=
+  match find_unit id (units s) with Some u => u_state u | None => Invalid end.
+Definition cur_stance (s : state) (id : Z) : float :=
+  match find_unit id (units s) with Some u => u_stance u | None => 0%float end.
+
+Section Exec.
+  Variable rs : runner.
+
+  (* handler.Emit: the listener records the event and what the getters of unit [id] return at
+     that moment, then runs the slot's next script *)
+  Definition emit_ev (s : state) (L : lsn) (sl : slot) (e : ev) (id : Z) : outcome :=
+    let (sc, L1) := pop_slot L sl in
+    match rs s L1 sc with
+    | None => None
+    | Some (s2, L2, evs) => Some (s2, L2, e :: ESeen (snapshot s id) :: evs)
+    end.
+
+  (* event.go: emitHPChangeEvents.  The new ratio is ALREADY stored; [oldR], [newR], [maxHP]
+     are Go locals.  After the HPChange listeners the code re-reads the unit's state, but
+     decides alive / dead from the local [newR]. *)
+  Definition r_emit_hp (s : state) (L : lsn) (c : call) (oldR newR maxHP : float) (dmg : bool) : outcome :=
+    let t := c_target c in
+    if eqb oldR newR then Some (s, L, [])
+    else
+      let s1 := if dmg then upd_unit s t (fun u => set_last u (c_source c)) else s in
+      match emit_ev s1 L LHP (EHP (c_key c) t oldR newR (maxHP * oldR) (maxHP * newR) dmg) t with
+      | None => None
+      | Some (s2, L2, evs) =>
+          match cur_state s2 t with
+          | Dead => Some (s2, L2, evs)                          (* death is final *)
+          | _ =>
+            if ltb 0 newR then Some (upd_unit s2 t (fun u => set_state u Alive), L2, evs)
+            else
+              (* the state is Dead while the LimboWaitHeal listeners run *)
+              let s3 := upd_unit s2 t (fun u => set_state u Dead) in
+              match emit_ev s3 L2 LLimbo (ELimbo t) t with
+              | None => None
+              | Some (s4, L4, evs') =>
+                  Some (if c_limbo c then upd_unit s4 t (fun u => set_state u Limbo) else s4,
+                        L4, evs ++ evs')
+              end
+          end
+      end.
+
+  (* SetHP / ModifyHPByAmount / ModifyHPByRatio: the ratio is stored, then the events go out *)
+  Definition r_do_hp (s : state) (L : lsn) (c : call) (u : unit_) (newR : float) (dmg : bool) : outcome :=
+    r_emit_hp (upd_unit s (c_target c) (fun u' => set_hp u' newR)) L c (u_hp u) newR (e_maxHP (c_env c)) dmg.
+
+  (* SetStance: the guard and the decision break / reset use the stance at entry; StanceBreak /
+     StanceReset go out BEFORE the new stance is stored; [prev := attr.Stance] is read after
+     their listeners ran; StanceChange goes out unconditionally *)
+  Definition r_do_stance (s : state) (L : lsn) (c : call) (u : unit_) (amount : float) : outcome :=
+    let t := c_target c in
+    let a := clampTo (u_maxStance u) amount in
+    if eqb (u_stance u) a then Some (s, L, [])
+    else
+      match (if eqb a 0 then emit_ev s L LBreak (EBreak (c_key c) t (c_source c)) t
+             else if eqb (u_stance u) 0 then emit_ev s L LReset (EReset (c_key c) t) t
+             else Some (s, L, [])) with
+      | None => None
+      | Some (s1, L1, pre) =>
+          let prev := cur_stance s1 t in
+          let s2 := upd_unit s1 t (fun u' => set_stance u' a) in
+          match emit_ev s2 L1 LStance (EStance (c_key c) t (c_source c) prev a) t with
+          | None => None
+          | Some (s3, L3, evs) => Some (s3, L3, pre ++ evs)
+          end
+      end.
+
+  (* SetEnergy: stored first, EnergyChange only when the value changed *)
+  Definition r_do_energy (s : state) (L : lsn) (c : call) (u : unit_) (amount : float) : outcome :=
+    let t := c_target c in
+    let a := clampTo (u_maxEnergy u) amount in
+    let s1 := upd_unit s t (fun u' => set_energy u' a) in
+    if eqb (u_energy u) a then Some (s1, L, [])
+    else emit_ev s1 L LEnergy (EEnergy (c_key c) t (c_source c) (u_energy u) a) t.
+
+  Definition r_on_target (s : state) (L : lsn) (c : call) (f : unit_ -> outcome)
+    : option (state * lsn * list ev * Z) :=
+    match find_unit (c_target c) (units s) with
+    | None => Some (s, L, [], EUnknownTarget)
+    | Some u => match f u with
+                | None => None
+                | Some (s', L', evs) => Some (s', L', evs, ENone)
+                end
+    end.
+
+  (* one call of the service, listeners included *)
+  Definition exec_op (s : state) (L : lsn) (o : op) : option (state * lsn * list ev * Z) :=
+    match o with
+    | OAdd id hp en me stc ms =>
+        match find_unit id (units s) with
+        | Some _ => Some (s, L, [], EDupTarget)
+        | None => Some (mkSt (units s ++ [(id, add_unit hp en me stc ms id)]) (sp s), L, [], ENone)
+        end
+    | OSetHP c amount dmg =>
+        r_on_target s L c (fun u => r_do_hp s L c u (new_hp_set (e_maxHP (c_env c)) amount) dmg)
+    | OModHPAmount c amount dmg =>
+        r_on_target s L c (fun u => r_do_hp s L c u (new_hp_amount (e_maxHP (c_env c)) (u_hp u) amount) dmg)
+    | OModHPRatio c ratio rtype floor dmg =>
+        if (rtype =? 1) || (rtype =? 2) then
+          r_on_target s L c (fun u =>
+            r_do_hp s L c u (new_hp_ratio (e_maxHP (c_env c)) (u_hp u) ratio rtype floor) dmg)
+        else
+          Some (s, L, [], match find_unit (c_target c) (units s) with
+                          | None => EUnknownTarget | Some _ => EBadRatioType end)
+    | OSetStance c amount => r_on_target s L c (fun u => r_do_stance s L c u amount)
+    | OModStance c amount =>
+        r_on_target s L c (fun u => r_do_stance s L c u (u_stance u + amount * (1 + e_bonus (c_env c)))%float)
+    | OSetEnergy c amount => r_on_target s L c (fun u => r_do_energy s L c u amount)
+    | OModEnergy c amount =>
+        r_on_target s L c (fun u => r_do_energy s L c u (u_energy u + amount * (1 + e_regen (c_env c)))%float)
+    | OModEnergyFixed c amount =>
+        r_on_target s L c (fun u => r_do_energy s L c u (u_energy u + amount)%float)
+    | OModSP key source amount =>
+        let n := new_sp (sp s) amount in
+        let s1 := mkSt (units s) n in
+        if sp s =? n then Some (s1, L, [], ENone)
+        else match emit_ev s1 L LSP (ESP key source (sp s) n) source with
+             | None => None
+             | Some (s2, L2, evs) => Some (s2, L2, evs, ENone)
+             end
+    end.
+
+  (* the body of a listener: its calls in order; the listener writes down what each returned *)
+  Fixpoint exec_list (s : state) (L : lsn) (ops : script) : outcome :=
+    match ops with
+    | [] => Some (s, L, [])
+    | o :: r =>
+        match exec_op s L o with
+        | None => None
+        | Some (s1, L1, e1, err) =>
+            match exec_list s1 L1 r with
+            | None => None
+            | Some (s2, L2, e2) => Some (s2, L2, e1 ++ ERet err :: e2)
+            end
+        end
+    end.
+End Exec.
+
+Fixpoint run_script (fuel : nat) : runner :=
+  fun s L sc =>
+    match sc with
+    | [] => Some (s, L, [])
+    | _ => match fuel with
+           | O => None
+           | S f => exec_list (run_script f) s L sc
+           end
+    end.
+
+Definition rstep (fuel : nat) (s : state) (L : lsn) (o : op) : option (state * lsn * list ev * Z) :=
+  exec_op (run_script fuel) s L o.
+
+(* a history: top-level calls in order, the listener queues threaded through *)
+Fixpoint rrun (fuel : nat) (s : state) (L : lsn) (ops : list op) : option (state * lsn * list res) :=
+  match ops with
+  | [] => Some (s, L, [])
+  | o :: r =>
+      match rstep fuel s L o with
+      | None => None
+      | Some (s1, L1, evs, err) =>
+          match rrun fuel s1 L1 r with
+          | None => None
+          | Some (s2, L2, rs) => Some (s2, L2, mkRes evs err (snapshot s1 (op_target o)) :: rs)
+          end
+      end
+  end.
+
+(* total number of scripts still queued: fuel above it is never exhausted *)
+Definition n_scripts (L : lsn) : nat :=
+  (length (l_hp L) + length (l_limbo L) + length (l_stance L) + length (l_break L) +
+   length (l_reset L) + length (l_energy L) + length (l_sp L))%nat.
